@@ -171,7 +171,7 @@ fn c19_o4_from_ipv4_and_r_valid() {
 fn c19_o4b_from_ipv4_valid() {
     let ipn: u32 = kani::any();
     let ip = Ipv4Addr::from(ipn);
-    let r: [u8; 21] = kani::any();
+    let r: [u8; 21] = kani::env();
     crate::verif_env::rnd::preload(&r);
     let id = Id::from_ipv4(ip);
     assert!(id.is_valid_for_ip(ip), "C19.O4b Id::from_ipv4(ip) is valid for ip");
